@@ -214,11 +214,21 @@ fn judge_run(
                         .with_detail(detail()),
                 );
             }
-            // second pass: the emitted transaction
-            let mut comp = compiler(&PP::default());
+            // second pass: the emitted transaction - as resolved, and with a reference block that names every UTxO of the
+            // store (what a template references has no say in what it spends)
             let reduced = resolved.reduce();
-            match reduced {
-                Err(e) => o.class(format!("reduce-err:{}", crate::engine::first_line(&e.to_string(), 30))),
+            let variants: Vec<Result<AnyTir, String>> = match reduced {
+                Err(e) => vec![Err(e.to_string())],
+                Ok(AnyTir::V1Beta0(t)) => {
+                    let mut with_refs = t.clone();
+                    with_refs.references.push(tir::Expression::UtxoRefs((0..cs.len()).map(c03::ref_at).collect()));
+                    vec![Ok(AnyTir::V1Beta0(t)), Ok(AnyTir::V1Beta0(with_refs))]
+                }
+            };
+            for variant in variants {
+            let mut comp = compiler(&PP::default());
+            match variant {
+                Err(e) => o.class(format!("reduce-err:{}", crate::engine::first_line(&e, 30))),
                 Ok(t) => match comp.compile(&t) {
                     Err(e) => o.class(format!("compile-err:{}", crate::engine::first_line(&e.to_string(), 30))),
                     Ok(ctx) => match txdecode::decode_tx(&ctx.payload) {
@@ -264,6 +274,7 @@ fn judge_run(
                         }
                     },
                 },
+            }
             }
         }
     }
